@@ -412,6 +412,58 @@ pub fn add_call(g: &mut Gen, w: &World, ext: &Ext, totals: &Totals, mb: &mut MB)
     t.label
 }
 
+/// A non-call instruction with live arguments (worktop, auth zone, proofs): "any instructions".
+pub fn add_instruction(g: &mut Gen, w: &World, ext: &Ext, totals: &Totals, mb: &mut MB) -> &'static str {
+    let r = g.pick(&ext.resources).clone();
+    let res = r.address;
+    let fungible = matches!(r.kind, ResKind::Fungible { .. });
+    let amount = match g.weighted(&[4, 2, 1, 1]) {
+        0 => dec!(1),
+        1 => Decimal::from(g.below(20)),
+        2 => Decimal::ZERO,
+        _ => dec!("0.5"),
+    };
+    let ids: Vec<NonFungibleLocalId> = {
+        let acct = ext.pick_holder(g, &res);
+        let (_, ids) = account_holding(ext, totals, acct, &res);
+        let mut v: Vec<NonFungibleLocalId> = ids.into_iter().take(1 + g.index(3)).collect();
+        if res == VALIDATOR_OWNER_BADGE {
+            v = vec![ext.validator_badge_id.clone()];
+        }
+        v
+    };
+    let (ins, label): (InstructionV1, &'static str) = match g.below(16) {
+        0 | 1 | 2 => (InstructionV1::CreateProofFromAuthZoneOfAmount(CreateProofFromAuthZoneOfAmount { resource_address: res, amount }), "instruction: CREATE_PROOF_FROM_AUTH_ZONE_OF_AMOUNT"),
+        3 | 4 => (InstructionV1::CreateProofFromAuthZoneOfNonFungibles(CreateProofFromAuthZoneOfNonFungibles { resource_address: res, ids }), "instruction: CREATE_PROOF_FROM_AUTH_ZONE_OF_NON_FUNGIBLES"),
+        5 | 6 => (InstructionV1::CreateProofFromAuthZoneOfAll(CreateProofFromAuthZoneOfAll { resource_address: res }), "instruction: CREATE_PROOF_FROM_AUTH_ZONE_OF_ALL"),
+        7 => (InstructionV1::PopFromAuthZone(PopFromAuthZone), "instruction: POP_FROM_AUTH_ZONE"),
+        8 => (InstructionV1::DropAuthZoneRegularProofs(DropAuthZoneRegularProofs), "instruction: DROP_AUTH_ZONE_REGULAR_PROOFS"),
+        9 => (InstructionV1::DropAuthZoneSignatureProofs(DropAuthZoneSignatureProofs), "instruction: DROP_AUTH_ZONE_SIGNATURE_PROOFS"),
+        10 => (InstructionV1::DropAllProofs(DropAllProofs), "instruction: DROP_ALL_PROOFS"),
+        11 => (InstructionV1::TakeAllFromWorktop(TakeAllFromWorktop { resource_address: res }), "instruction: TAKE_ALL_FROM_WORKTOP"),
+        12 => (InstructionV1::TakeFromWorktop(TakeFromWorktop { resource_address: res, amount }), "instruction: TAKE_FROM_WORKTOP"),
+        13 => (InstructionV1::AssertWorktopContains(AssertWorktopContains { resource_address: res, amount }), "instruction: ASSERT_WORKTOP_CONTAINS"),
+        14 => (InstructionV1::AssertWorktopContainsAny(AssertWorktopContainsAny { resource_address: res }), "instruction: ASSERT_WORKTOP_CONTAINS_ANY"),
+        _ => (InstructionV1::AssertWorktopContainsNonFungibles(AssertWorktopContainsNonFungibles { resource_address: res, ids }), "instruction: ASSERT_WORKTOP_CONTAINS_NON_FUNGIBLES"),
+    };
+    // ids created by the instruction keep the counters of the manifest right
+    match &ins {
+        InstructionV1::CreateProofFromAuthZoneOfAmount(_) | InstructionV1::CreateProofFromAuthZoneOfNonFungibles(_) | InstructionV1::CreateProofFromAuthZoneOfAll(_) | InstructionV1::PopFromAuthZone(_) => mb.bases.proof += 1,
+        InstructionV1::TakeAllFromWorktop(_) | InstructionV1::TakeFromWorktop(_) => {
+            // put it straight back so that nothing dangles
+            mb.ins.push(ins.clone());
+            mb.ins.push(InstructionV1::ReturnToWorktop(ReturnToWorktop { bucket_id: ManifestBucket(mb.bases.bucket) }));
+            mb.bases.bucket += 1;
+            mb.log.push(format!("{} {} ({}fungible) + RETURN_TO_WORKTOP", label, r.name, if fungible { "" } else { "non-" }));
+            return label;
+        }
+        _ => {}
+    }
+    mb.log.push(format!("{} {} amount {}", label, r.name, amount));
+    mb.ins.push(ins);
+    label
+}
+
 fn tail(g: &mut Gen, w: &World, mb: &mut MB) {
     if g.chance(7, 8) {
         let a = w.accounts[g.index(w.accounts.len())].address;
@@ -446,7 +498,7 @@ fn calls_case(g: &mut Gen) -> Outcome {
             }
             let mut labels = Vec::new();
             for _ in 0..in_this {
-                labels.push(add_call(g, w, ext, &totals, &mut mb));
+                labels.push(if g.chance(1, 6) { add_instruction(g, w, ext, &totals, &mut mb) } else { add_call(g, w, ext, &totals, &mut mb) });
             }
             tail(g, w, &mut mb);
             done += in_this;
@@ -519,7 +571,7 @@ pub fn short_outcome(run: &Run) -> String {
 // ------------------------------------------------------------------------------------------------
 // calls made by blueprint code (puppet `act` on the vault-holding component)
 
-use vf_eng_c::pup::{marker, script_manifest_args, v_own_lit, v_ref_lit, v_tuple, B};
+use vf_eng_c::pup::{enc, marker, script_manifest_args, v_own, v_own_lit, v_ref_lit, v_tuple, B};
 use vf_sbor::wire::*;
 
 #[derive(Clone, Debug)]
@@ -629,6 +681,8 @@ fn internal_case(g: &mut Gen) -> Outcome {
         let mut reservations: Vec<(PackageAddress, String)> = Vec::new();
         let mut blobs: IndexMap<Hash, Vec<u8>> = IndexMap::new();
         let mut calls: Vec<ICall> = Vec::new();
+        // proofs pushed into the frame's auth zone before the calls (indices into `proofs`)
+        let mut az_push: Vec<usize> = Vec::new();
         let res_bp = |ext: &Ext, r: &ResourceAddress, f: &str, n: &str| -> String {
             match ext.res_info(r).map(|i| i.kind.clone()) {
                 Some(ResKind::NonFungible) => n.to_string(),
@@ -662,7 +716,21 @@ fn internal_case(g: &mut Gen) -> Outcome {
                     let bp = res_bp(ext, &ext.holder_vaults[i].1, FUNGIBLE_VAULT_BLUEPRINT, NON_FUNGIBLE_VAULT_BLUEPRINT);
                     (IRecv::Vault(i), Some((RESOURCE_PACKAGE, bp)))
                 }
-                3 => (IRecv::AuthZone, Some((RESOURCE_PACKAGE, AUTH_ZONE_BLUEPRINT.to_string()))),
+                3 => {
+                    // an auth zone holding proofs of several kinds is the interesting one
+                    if az_push.is_empty() && g.chance(3, 4) {
+                        let n = 1 + g.below(3);
+                        for _ in 0..n {
+                            let mut need = pick_res(g);
+                            if need.amount == Amount::Zero {
+                                need.amount = Amount::One;
+                            }
+                            proofs.push(need);
+                            az_push.push(proofs.len() - 1);
+                        }
+                    }
+                    (IRecv::AuthZone, Some((RESOURCE_PACKAGE, AUTH_ZONE_BLUEPRINT.to_string())))
+                }
                 4 => {
                     let a = *g.pick(&ext.components);
                     let bp = ext.globals.iter().find(|(_, v)| v.contains(&a)).map(|(k, _)| k.clone());
@@ -698,6 +766,9 @@ fn internal_case(g: &mut Gen) -> Outcome {
             let bases = Bases { bucket: buckets.len() as u32, proof: proofs.len() as u32, reservation: reservations.len() as u32, named: reservations.len() as u32 };
             let mut sub = Subst::new(ext, w, t, recv_global.as_ref(), bases);
             sub.max_owned = 3;
+            if matches!(recv, IRecv::AuthZone) {
+                sub.related = az_push.iter().map(|p| proofs[*p].res).collect();
+            }
             {
                 let s = if ga.mode == Mode::Raw { None } else { schema.as_ref().map(|s| s.v1()) };
                 sub.subst(g, &mut ga.node, s, t.input.map(|(_, id)| id));
@@ -755,6 +826,11 @@ fn internal_case(g: &mut Gen) -> Outcome {
             reservation_slots.push(s);
         }
         let auth_zone_slot = if calls.iter().any(|c| matches!(c.recv, IRecv::AuthZone)) { Some(b.op(Op::ActorGetNodeId(ACTOR_REF_AUTH_ZONE), 1)) } else { None };
+        if let Some(az) = auth_zone_slot {
+            for p in &az_push {
+                b.op(Op::CallMethod { receiver: N::Slot(az), method: AUTH_ZONE_PUSH_IDENT.into(), args: enc(&v_tuple(vec![v_own(proof_slots[*p])])) }, 1);
+            }
+        }
         let mut opened: Vec<u8> = Vec::new();
         for i in 0..ext.holder_vaults.len() {
             if calls.iter().any(|c| matches!(c.recv, IRecv::Vault(x) if x == i)) {
@@ -1145,7 +1221,11 @@ fn notarized_case(g: &mut Gen) -> Outcome {
         }
         let n = 1 + g.below(2);
         for _ in 0..n {
-            add_call(g, w, ext, &totals, &mut mb);
+            if g.chance(1, 6) {
+                add_instruction(g, w, ext, &totals, &mut mb);
+            } else {
+                add_call(g, w, ext, &totals, &mut mb);
+            }
         }
         tail(g, w, &mut mb);
         let signers: Vec<usize> = (0..w.accounts.len()).filter(|_| g.chance(3, 4)).collect();
